@@ -2,6 +2,7 @@ package main
 
 import (
 	"flag"
+	"go/types"
 	"fmt"
 	"os"
 	"path/filepath"
@@ -30,6 +31,7 @@ func main() {
 	findingsPath := flag.String("findings", "/verif/known_findings.txt", "known findings file")
 	replay := flag.String("replay", "", "print a violation report")
 	dump := flag.Bool("dump", false, "print every obligation")
+	nonorm := flag.Bool("nonorm", false, "analyse the program as written (skip helper expansion)")
 	flag.Parse()
 	if *replay != "" {
 		b, err := os.ReadFile(*replay)
@@ -55,6 +57,23 @@ func main() {
 	start := time.Now()
 	abs, _ := filepath.Abs(*repo)
 	main, lerr := Load(LoadOpts{Repo: abs, Tags: defaultTags})
+	var normNotes []string
+	if lerr == nil && !*nonorm {
+		// anchors: every function a rule of any property asks for by name stays a function
+		main.collect = map[*types.Func]bool{}
+		for id, fn := range registry {
+			func() {
+				defer func() { recover() }()
+				fn(NewCtx(main, id, "collect"))
+			}()
+		}
+		anchors := main.collect
+		main.collect = nil
+		main.wsCache, main.callers = nil, nil
+		var p2 *Prog
+		p2, normNotes = Normalise(main, LoadOpts{Repo: abs, Tags: defaultTags}, anchors)
+		main = p2
+	}
 	loadT := time.Since(start)
 	exit := 0
 	for _, id := range props {
@@ -69,6 +88,7 @@ func main() {
 		if lerr != nil {
 			res.Fatal = append(res.Fatal, lerr.Error())
 		} else {
+			res.Notes = append(res.Notes, normNotes...)
 			res.Pkgs = len(main.Roots)
 			res.Funcs = len(main.funcList)
 			if len(main.Roots) < 70 {
